@@ -111,6 +111,7 @@ func (b *ByteBuffer) Reset() {
 
 // ChangeLen changes the buffer length.
 func (b *ByteBuffer) ChangeLen(newLen int) {
+	verifAlloc(newLen)
 	if cap(b.B) < newLen {
 		b.B = make([]byte, newLen)
 	} else if newLen >= 0 {
